@@ -190,6 +190,22 @@ func parseGroup(node *yaml.Node, schema Schema, offsetLine, offsetColumn int, co
 				return group
 			}
 			group.Labels = newYamlMap(entry.key, entry.val, offsetLine, offsetColumn, contentLines)
+			for _, lab := range group.Labels.Items {
+				if !model.LabelName(lab.Key.Value).IsValid() || lab.Key.Value == model.MetricNameLabel {
+					group.Error = ParseError{
+						Line: lab.Key.Pos.Lines().First,
+						Err:  fmt.Errorf("invalid label name: %s", lab.Key.Value),
+					}
+					return group
+				}
+				if !model.LabelValue(lab.Value.Value).IsValid() {
+					group.Error = ParseError{
+						Line: lab.Key.Pos.Lines().First,
+						Err:  fmt.Errorf("invalid label value: %s", lab.Value.Value),
+					}
+					return group
+				}
+			}
 		case "rules":
 			if !isTag(entry.val.ShortTag(), seqTag) {
 				group.Error = ParseError{
@@ -244,14 +260,12 @@ func parseGroup(node *yaml.Node, schema Schema, offsetLine, offsetColumn int, co
 		setKeys[entry.key.Value] = struct{}{}
 	}
 
-	if _, ok := setKeys["rules"]; ok {
-		if _, ok := setKeys["name"]; !ok {
-			group.Error = ParseError{
-				Line: node.Line,
-				Err:  errors.New("incomplete group definition, name is required and must be set"),
-			}
-			return group
+	if _, ok := setKeys["name"]; !ok {
+		group.Error = ParseError{
+			Line: node.Line,
+			Err:  errors.New("incomplete group definition, name is required and must be set"),
 		}
+		return group
 	}
 
 	return group
